@@ -527,15 +527,26 @@ func parseOnce(f *sfnt.Font, text string) dsl.Outcome {
 	return dsl.RunParse(f, text, watchdog, settle)
 }
 
+// Explain iterates over Go maps, so one shape is explained and parsed back several times (more often
+// for the large shapes); the first repetition that is not a faithful round trip is the one recorded.
 func runRT(c *Case, out *vio.Out) {
 	s := c.Shape
 	f := font(s.Font)
 	ll := dsl.Instantiate(s, c.Seed)
 	before, note := dsl.Canon(ll)
-	text, xpanic := explain(f, s.Tab, ll)
-	e := ev{"ev": "rt", "case": c.ID, "shape": s, "text": text, "xpanic": trim(xpanic, 300), "note": note,
-		"before": before, "after": []any{}, "perr": "", "ppanic": "", "returned": true, "leaks": 0}
-	if xpanic == "" {
+	bj, _ := json.Marshal(before)
+	reps := 3
+	if s.A >= 13 || s.B >= 13 || len(s.Forms) >= 13 {
+		reps = 25
+	}
+	var e ev
+	for r := 0; r < reps; r++ {
+		text, xpanic := explain(f, s.Tab, ll)
+		e = ev{"ev": "rt", "case": c.ID, "shape": s, "text": text, "xpanic": trim(xpanic, 300), "note": note,
+			"before": before, "after": []any{}, "perr": "", "ppanic": "", "returned": true, "leaks": 0, "rep": r}
+		if xpanic != "" {
+			break
+		}
 		o := parseOnce(f.F, text)
 		e["returned"] = o.Returned
 		e["leaks"] = o.Leaked
@@ -544,12 +555,18 @@ func runRT(c *Case, out *vio.Out) {
 			e["ppanic"] = "panic"
 		}
 		e["perr"] = trim(o.Err, 300)
+		good := o.OK && o.Returned && o.Leaked == 0
 		if o.OK {
 			after, note2 := dsl.Canon(o.Lookups)
 			e["after"] = after
 			if note2 != "" {
 				e["note"] = note2
 			}
+			aj, _ := json.Marshal(after)
+			good = good && string(aj) == string(bj)
+		}
+		if !good {
+			break
 		}
 	}
 	out.Emit(e)
